@@ -88,7 +88,7 @@ def check_grid(res, par, order):
             bad = (f"{c}max is not the last point", {})
             break
         ic = getattr(fd, f'i{c}center')
-        if abs(arr[ic]) != np.abs(arr).min():
+        if not (0 <= ic < n) or abs(arr[ic]) != np.abs(arr).min():
             bad = (f"i{c}center not closest to zero", {})
             break
     if bad is None:
@@ -114,6 +114,23 @@ def check_grid(res, par, order):
             bad = ("cartesian<->spherical round trip", {"err": float(err), "scale": float(sc)})
         elif np.any(th < 0) or np.any(th > np.pi) or np.any(np.abs(ph) > np.pi):
             bad = ("spherical angle ranges", {})
+    if bad is None:
+        # spherical -> Cartesian -> spherical, azimuth given in (-pi, pi] or in [0, 2 pi)
+        g = np.random.default_rng(N[0] * 131 + N[1] * 17 + N[2])
+        rr = g.uniform(0.1, 5.0, 64)
+        tt = g.uniform(0.05, np.pi - 0.05, 64)
+        pp = g.uniform(-np.pi, 2 * np.pi, 64)
+        xx, yy, zz = fd.spherical_to_cartesian(rr, tt, pp)
+        want = (rr * np.sin(tt) * np.cos(pp), rr * np.sin(tt) * np.sin(pp), rr * np.cos(tt))
+        err = max(np.abs(np.asarray(a) - b).max() for a, b in zip((xx, yy, zz), want))
+        if not err <= 1e-12 * 5.0:
+            bad = ("spherical_to_cartesian differs from r sin(th) cos(ph), ...", {"err": float(err)})
+        else:
+            r2, t2, p2 = fd.cartesian_to_spherical(xx, yy, zz)
+            dphi = np.abs((np.asarray(p2) - pp + np.pi) % (2 * np.pi) - np.pi)
+            if not (np.abs(r2 - rr).max() <= 1e-9 and np.abs(t2 - tt).max() <= 1e-9
+                    and dphi.max() <= 1e-9):
+                bad = ("spherical -> Cartesian -> spherical round trip", {})
     if bad is None:
         # the stored spherical arrays belong to THIS grid (not to an earlier
         # one with the same N and spacing): compare with exact coordinates
@@ -185,6 +202,9 @@ def check_consumers(res, par, order):
             mid = tuple(par[c + 'min'] + 0.5 * (N[i] - 1) * par['d' + c]
                         for i, c in enumerate('xyz'))
             rel = A.AurelCore(fd, verbose=False, center=mid)
+            grid_names = ('xarray', 'yarray', 'zarray', 'x', 'y', 'z', 'r', 'theta', 'phi',
+                          'cartesian_coords', 'spherical_coords')
+            grid0 = {k: np.array(getattr(fd, k), copy=True) for k in grid_names}
             out = {}
             out['null_ray_exp_out'] = np.shape(rel['null_ray_exp_out'])
             out['null_ray_exp_in'] = np.shape(rel['null_ray_exp_in'])
@@ -204,6 +224,13 @@ def check_consumers(res, par, order):
         res['observations'] += 1
         common.add_violation(res, f"consumer raises {type(e).__name__}",
                              {"param": par, "err": repr(e)[:200]})
+        return
+    # the consumers only read the grid object (it is shared by every later user)
+    res['observations'] += 1
+    changed = [k for k in grid_names if not np.array_equal(grid0[k], getattr(fd, k), equal_nan=True)]
+    if changed:
+        common.add_violation(res, "a consumer modified the grid object's arrays",
+                             {"param": par, "arrays": changed, "center": mid})
         return
     for k, shp in out.items():
         res['observations'] += 1
